@@ -21,6 +21,9 @@ CLAIMED = {
  "C18": ("may-write summaries over SSA and the VTA call graph, dominance-based lock discipline, zero-instance concurrency rules with positive controls",
          "Decides the structural clauses that make concurrent use race-free: (GLOBAL-store) no function other than package initialisation stores to memory rooted at a package-level variable, directly or through a callee that writes its argument (assembly writes from the assembly scanner); (SHARED-readonly) no function writes through a parameter of a shared precomputed type (base-point tables, expanded points/keys, lookup tables) except the type's two initialisers; (NO-concurrency) no goroutine, channel, sync/atomic or unsafe cast outside one allow-listed function; (LOCK-access/atomic/double) for every struct containing a sync.Mutex (found by type) each field access is dominated by Lock on the same object or happens in a helper all of whose callers hold it, every externally callable method locks first and unlocks by defer (operations are atomic, so linearisability reduces to sequential correctness), no double lock. Sequential correctness of the LRU policy is not decided.",
          "DESIGN.md §3 E-MOD, §4 C18", "external callees outside a read-only allow-list are assumed to write all pointer arguments; callers mutating exported variables and user Cache implementations are outside the claim", ["emod", "easm"]),
+ "C20": ("evaluation of literal data in the typed syntax tree (and assembly DATA blocks) against an independent math/big oracle; AST provenance rules for start-up tables",
+         "Exhaustive over the finite set of embedded constants: every literal field element, scalar, point, compressed encoding, packed table entry (256 + 64 + 64), Keccak round constant, bias vector and assembly RODATA block is read from the typed syntax tree of every configuration (constant folding through go/types, limb vectors converted with the radix of that back end, limbs required to be in reduced range) and compared with its defining formula evaluated by an oracle written with math/big that is itself checked against the values printed in RFC 8032/9496/7748/FIPS 202; 64-bit and 32-bit encodings of one name are cross-checked; a package-level arithmetic variable or function-body literal without a definition fails the run; start-up tables are checked for provenance (built from the named source constant by the expected constructor, index 8i+j, byte ranges of the packed entries). Each literal is also perturbed in memory on every run and the check must reject the perturbation.",
+         "DESIGN.md §3 E-CONST, §4 C20", "the values of tables computed at start-up by library code are not decided, only their provenance", ["econst", "easm"]),
 }
 
 PENDING_REASON = "check under construction (DESIGN.md section 7 build order); not claimed yet"
